@@ -261,3 +261,99 @@ def c45(case, obs):
                     if ne.get(nm) != c - 1:
                         return where + "num_events[%d] = %s, %d frames/events were numbered" % (nm, ne.get(nm), c - 1)
     return None
+
+
+# ------------------------------------------------------------------ C16
+
+def c16_class_a(case, obs):
+    """Mirror of the Coq finding class finding_C16_a: some monitor callback fires while the descriptor its
+    closure captured is not the latest descriptor emitted for its stream.  Computed from ops, documents and the
+    device-call ledger only."""
+    return bool(_c16_scan(case, obs)[1])
+
+
+def c16(case, obs):
+    return _c16_scan(case, obs)[0]
+
+
+def c16_finding(case, obs):
+    why, stale_ops, first_bad_op = _c16_scan(case, obs)
+    if why is not None and first_bad_op in stale_ops:
+        return "a"
+    return None
+
+
+def _c16_scan(case, obs):
+    """returns (first violation or None, set of op indexes at which a stale monitor closure fired,
+    op index of the first violation)"""
+    devs = {d["id"]: d for d in case["devs"]}
+    cfg = {}                    # device configuration as set through configure
+    view = View()
+    latest = {}                 # stream name -> uid of the latest descriptor
+    closures = {}               # callback id -> (descriptor uid, stream name)
+    subs = []                   # (obj, callback id) currently subscribed
+    stale_ops = set()
+    why, bad = None, None
+
+    def fail(i, msg):
+        nonlocal why, bad
+        if why is None:
+            why, bad = "op %d %s: %s" % (i, case["ops"][i][0], msg), i
+
+    for i, (op, o) in enumerate(zip(case["ops"], obs)):
+        k, docs, res = op[0], o["docs"], o["res"]
+        if k == "mon_event":
+            for ob, cb in subs:
+                if ob == op[1] and cb in closures and latest.get(closures[cb][1]) != closures[cb][0]:
+                    stale_ops.add(i)
+        before = dict(latest)
+        for c in o["calls"]:
+            if c[0] == "configure":
+                cfg[c[1]] = c[2]
+            elif c[0] == "subscribe":
+                subs.append((c[1], c[2]))
+            elif c[0] == "clear_sub":
+                subs = [x for x in subs if x != (c[1], c[2])]
+        for d in docs:
+            if d[0] == "descriptor":
+                # (1) configuration recorded = what each object of the stream reports now
+                objs = [x[0] for x in d[5]]
+                if sorted(x[0] for x in d[6]) != sorted(objs):
+                    fail(i, "descriptor %s: configuration for %s, stream objects %s" % (d[1], [x[0] for x in d[6]], objs))
+                for ob, v in d[6]:
+                    want = cfg.get(ob, 0) if "configurable" in devs[ob]["caps"] else None
+                    if v != want:
+                        fail(i, "descriptor %s records configuration %r for object %d, it reports %r" % (d[1], v, ob, want))
+                view.see(d)
+                latest[d[3]] = tuple(d[1])
+                if k == "monitor":
+                    for c in o["calls"]:
+                        if c[0] == "subscribe":
+                            closures[c[2]] = (tuple(d[1]), d[3])
+            elif d[0] == "event":
+                de = view.descr.get(tuple(d[2]))
+                if de is None:
+                    fail(i, "event references a descriptor that was never emitted")
+                elif de[3] != 0 and latest.get(de[3]) != tuple(d[2]):
+                    fail(i, "event of stream %d references descriptor %s, the stream's latest descriptor is %s"
+                         % (de[3], d[2], list(latest.get(de[3]))))
+        # (2) a successful configure re-describes every stream containing the object
+        if k == "configure" and res == "ok":
+            new = {d[3]: d for d in docs if d[0] == "descriptor"}
+            for nm, u in before.items():
+                old = view.descr[u]
+                if nm == 0 or op[1] not in [x[0] for x in old[5]]:
+                    continue
+                d = new.get(nm)
+                if d is None:
+                    fail(i, "stream %d contains object %d but was not re-described" % (nm, op[1]))
+                    continue
+                if d[4] != old[4] or d[5] != old[5]:
+                    fail(i, "re-described stream %d changed its data keys" % nm)
+                if tuple(d[1]) in [x for x in view.order[:-len(new)]]:
+                    fail(i, "re-described stream %d reuses a descriptor uid" % nm)
+                if "configurable" in devs[op[1]]["caps"] and dict((a, b) for a, b in d[6]).get(op[1]) != op[2]:
+                    fail(i, "new descriptor of stream %d does not carry the new configuration" % nm)
+            if any(d[0] != "descriptor" for d in docs):
+                fail(i, "configure emitted something else than descriptors")
+    return why, stale_ops, bad
